@@ -575,6 +575,22 @@ theorem parseHas_string (e : Expr) (a : String) (rest : List Token) :
   unfold parseHas
   simp [peek, adv, strT_ty, strVal_strT a]
 
+/-- `like`: `pt` is ANY string token whose text `ParsePattern` reads as `p` -/
+theorem reads_like {e : Expr} {te : List Token} (p : Pattern) (pt : Token) (hty : pt.ty = .string)
+    (hp : parsePattern (trimQuotes pt.text.toList) = .ok p)
+    (he : ReadsAt 4 e te) : ReadsAt 3 (.like e p) (te ++ [kwT "like", pt]) := by
+  obtain ⟨de, he'⟩ := add_stops_at_rel he
+  refine ⟨de, fun rest hs n k hk => ?_⟩
+  show OLe (okP (_, rest)) (relation (exprF n) n ((te ++ [kwT "like", pt]) ++ rest))
+  have e1 : (te ++ [kwT "like", pt]) ++ rest = te ++ (kwT "like" :: (pt :: rest)) := by simp
+  rw [e1]
+  have ha := he' (kwT "like") (pt :: rest) rfl n (by omega)
+  unfold relation
+  rw [ha, bindP_okP]
+  unfold relTail parseLike
+  simp [peek, adv, kwT, hty, hp]
+  exact OLe.refl _
+
 theorem reads_ite {c t e : Expr} {tc tt te : List Token} (hc : ReadsAt 0 c tc) (ht : ReadsAt 0 t tt) (he : ReadsAt 0 e te) :
     ReadsAt 0 (.ite c t e) (kwT "if" :: (tc ++ kwT "then" :: (tt ++ kwT "else" :: te))) := by
   obtain ⟨dc, hc⟩ := hc
@@ -1018,6 +1034,9 @@ inductive Rend : Item → List Token → Prop where
       Rend (.e lvl (.has x a)) (ts ++ [kwT "has", idT a])
   | hasStr {lvl : Nat} {x : Expr} {ts : List Token} (a : String) : Rend (.e 4 x) ts → lvl ≤ 3 →
       Rend (.e lvl (.has x a)) (ts ++ [kwT "has", strT a])
+  | like {lvl : Nat} {x : Expr} {ts : List Token} (p : Pattern) (pt : Token) : pt.ty = .string →
+      parsePattern (trimQuotes pt.text.toList) = .ok p → Rend (.e 4 x) ts → lvl ≤ 3 →
+      Rend (.e lvl (.like x p)) (ts ++ [kwT "like", pt])
   | set {lvl : Nat} {es : List Expr} {ts : List Token} : Rend (.args es) ts → Rend (.e lvl (.set es)) (opT "[" :: (ts ++ [opT "]"]))
   | record {lvl : Nat} {kes : List (String × Expr)} {ts : List Token} : Rend (.kvs kes) ts → (kes.map (·.1)).Nodup →
       Rend (.e lvl (.record kes)) (opT "{" :: (ts ++ [opT "}"]))
@@ -1229,6 +1248,10 @@ theorem rend_spec {it : Item} {ts : List Token} (h : Rend it ts) : Spec it ts :=
     have := ih (by omega)
     exact reads_down (p := 3) (by omega) (reads_has a (strT a) (fun rest _ => parseHas_string x a rest) this.1)
       ((this.2.mono (by omega)).append _) lvl hlvl
+  | @like lvl x ts p pt hty hp _ hlvl ih =>
+    intro _
+    have := ih (by omega)
+    exact reads_down (p := 3) (by omega) (reads_like p pt hty hp this.1) ((this.2.mono (by omega)).append _) lvl hlvl
   | @set lvl es ts _ ih =>
     intro hl
     exact reads_down (p := 8) (by omega) (reads_set ih) (headOK_of_tok 8 _ _ rfl rfl rfl rfl rfl) lvl hl
